@@ -643,6 +643,7 @@ func (self *ReplicationClient) InitSync() error {
 	if self.aofLock != nil {
 		err = self.aof.Load()
 		if err != nil {
+			self.aofLock = nil
 			rerr := self.aof.Reset(1, 0)
 			if rerr != nil {
 				return err
